@@ -544,10 +544,13 @@ func (rule *RuleExpression) checkWorkflowCall(c *WorkflowCall) {
 			switch v {
 			case "null":
 				ty = NullType{}
-			case "true", "false":
+			case "true", "false", "True", "False", "TRUE", "FALSE":
+				// Plain scalars True/TRUE/False/FALSE are booleans in YAML as well
 				ty = BoolType{}
 			default:
-				if _, err := strconv.ParseFloat(v, 64); err == nil {
+				// strconv.ParseFloat also accepts "NaN", "Inf", "Infinity" and hexadecimal floats
+				// such as "0x1p4". They are strings in YAML
+				if _, err := strconv.ParseFloat(v, 64); err == nil && !strings.ContainsAny(v, "nNiIxXpP") {
 					ty = NumberType{}
 				}
 			}
